@@ -13,8 +13,8 @@ func init() {
 		ID:    "C04",
 		Title: "Path parameters are bound to exactly the URL text they stand for",
 		Decided: "C04.a the binder used for a request is the PathProcessor of the very router that selected the route (comma-ok assertion on the same Container.router value), else the default one; it is given the selected route, the selected service and this request's URL path, and its result reaches Request.pathParameters unmodified - nothing else stores that field; " +
-			"C04.b each binder returns a map made during that call; C04.c the binder rewrites or slices a URL value only under the template guards the matcher verified, a literal affix it strips is verified by the matcher, and its subtracted slice bound is guarded; C04.d a route's tokens and custom-verb flag are derived from its full path (root + route path) at build time and stored nowhere else; C04.e the JSR311 binder applies the route expression to the remainder left by the service expression, as the JSR311 selection does. C04.f = C01.g. C04.g nothing writes into the token slice of the request path after tokenisation (element store, copy, truncating append, in-place sort), in the tokenising function or in a module function the slice is handed to.",
-		NotDecided: "(C04.h, decided: a value stored in a parameter map is not cut out of the URL path string by slicing, searching or trimming it - it comes from the tokens or from a match group.) Not decided: index alignment of the token walk and the round-trip law (value-level); the regular expressions; untokenizePath's join.",
+			"C04.b each binder returns a map made during that call; C04.c the binder rewrites or slices a URL value only under the template guards the matcher verified, a literal affix it strips is verified by the matcher, and its subtracted slice bound is guarded; C04.d a route's tokens and custom-verb flag are derived from its full path (root + route path) at build time and stored nowhere else; C04.e the JSR311 binder applies the route expression to the remainder left by the service expression, as the JSR311 selection does. C04.f = C01.g. C04.g nothing writes into the token slice of the request path after tokenisation (element store, copy, truncating append, in-place sort), in the tokenising function or in a module function the slice is handed to. C04.h a value stored in a parameter map is not cut out of the URL path string by slicing, searching or trimming it (it comes from the tokens or from a match group); C04.i a literal around a variable is cut off by position, not located by searching the request token.",
+		NotDecided: "index alignment of the token walk and the round-trip law (value-level); the regular expressions; untokenizePath's join.",
 		Rules: []Rule{
 			{ID: "C04.a", Template: "T-PROV", Required: true, Run: ruleC04a,
 				Doc: "The right binder with the right inputs. A binder cached on the container, chosen from a different router, or fed another route binds names the template does not have."},
